@@ -69,7 +69,8 @@ def chkAccepts (g : SGrammar) (start' : String) (S : StateMap) (T : Table) : Boo
 /-- V4/V5: state 0 has only items with the dot at the left end; items of `S′` do not occur with dot 0 elsewhere -/
 def chkInitial (start' : String) (S : StateMap) : Bool :=
   (itemsAt S 0).all (fun it => it.dot == 0) &&
-  ((S.zipIdx).all fun Is => Is.2 == 0 || Is.1.all (fun it => !(it.prod.head == start' && it.dot == 0)))
+  ((List.range S.length).all fun i =>
+    i == 0 || (itemsAt S (i : Int)).all (fun it => !(it.prod.head == start' && it.dot == 0)))
 
 /-- V6: the endmarker is never shifted -/
 def chkNoShiftEnd (T : Table) : Bool :=
@@ -103,9 +104,7 @@ def chkClosed (g' : SGrammar) (nl : List String) (fe : Env) (S : StateMap) : Boo
         match it.la with
         | none => I.contains { prod := p, dot := 0, la := none }
         | some a =>
-          let β := it.prod.body.drop (it.dot + 1)
-          let bs := if β.all (symNullable nl) then unionNew (firstOfStr nl fe β) [a] else firstOfStr nl fe β
-          bs.all fun b => I.contains { prod := p, dot := 0, la := some b }
+          (lookaheadsFor nl fe it a).all fun b => I.contains { prod := p, dot := 0, la := some b }
     | _ => true
 
 /-- every symbol after a dot has a transition whose target holds the advanced item (with the same lookahead) -/
@@ -152,6 +151,27 @@ def tableCheck (g : SGrammar) (b : Built) : Option String :=
   ((soundChecks g b ++ completeChecks g b).find? (fun c => !c.2)).map (·.1)
 
 def soundOK (g : SGrammar) (b : Built) : Bool := (soundChecks g b).all (·.2)
+
+/-! ## the declared precedence rule -/
+
+inductive Choice where
+  | reduce | shift | error
+  deriving DecidableEq, Repr
+
+/-- what the declared levels say about a conflict between reducing by `p` and shifting `a`:
+the handle of `p` is its first terminal (or `p` itself if it has none), the handle of the shift is `a`;
+the handle listed in the earlier level wins; on the same level LEFT reduces, RIGHT shifts, NONE is an error;
+an unlisted handle is an error -/
+def declared (ls : List Level) (p : Pr) (a : String) : Choice :=
+  match precedenceOf ls (handleOfProd p), precedenceOf ls (.term a) with
+  | some (i, as), some (k, _) =>
+    if i < k then .reduce
+    else if k < i then .shift
+    else match as with
+      | .left => .reduce
+      | .right => .shift
+      | .none => .error
+  | _, _ => .error
 
 /-! ## precedence climbing for `E → E op E | id` -/
 
